@@ -211,6 +211,11 @@ def sec_pose(rec, quats=(), shape=(5, 5, 5), entry="single", patches=None):
 
 
 def replay_units(cex):
+    with load.real_modules():
+        return _replay_units(cex)
+
+
+def _replay_units(cex):
     """installed library: max_shifts in nm bounds the displacement written back, for every loader entry point, scales != 1 and groups of loaders with different scales"""
     from acryo import SubtomogramLoader, Molecules
     from acryo.loader._group import LoaderGroup
@@ -259,6 +264,20 @@ def replay_units(cex):
                 d = np.abs(np.asarray(l1.molecules.pos, dtype=float) - np.asarray(l0.molecules.pos, dtype=float)).max()
                 if d > msh * 1.001 + 1e-6:  # identity orientations: the bound applies per axis
                     bad.append({"entry": name, "scales": list(scales), "scale": l0.scale, "max_shifts_nm": msh, "moved_nm": float(d)})
+    # a scalar max_shifts (nm) must be accepted by every entry point and every model (the range is 'valid')
+    from acryo.alignment import PCCAlignment, FSCAlignment
+
+    ld = SubtomogramLoader(tomo(offs), Molecules(np.array([[12, 12, 12], [26, 26, 26]], dtype=np.float32) * 0.5), order=1, scale=0.5, output_shape=(size,) * 3)
+    for M in (ZNCCAlignment, PCCAlignment, FSCAlignment):
+        entries = {"align": lambda: ld.align(tmpl, max_shifts=1.0, alignment_model=M), "align_multi_templates": lambda: ld.align_multi_templates([tmpl, tmpl2], max_shifts=1.0, alignment_model=M),
+                   "align_no_template": lambda: ld.align_no_template(max_shifts=1.0, alignment_model=M), "group.align": lambda: LoaderGroup([(0, ld)]).align(tmpl, max_shifts=1.0, alignment_model=M),
+                   "group.align_multi_templates": lambda: LoaderGroup([(0, ld)]).align_multi_templates([tmpl, tmpl2], max_shifts=1.0, alignment_model=M),
+                   "group.align_no_template": lambda: LoaderGroup([(0, ld)]).align_no_template(max_shifts=1.0, alignment_model=M)}
+        for name, fn in entries.items():
+            try:
+                fn()
+            except Exception as e:
+                bad.append({"entry": name, "model": M.__name__, "max_shifts": "scalar 1.0", "raised": repr(e)[:120]})
     return len(bad) > 0, {"n": len(bad), "examples": bad[:4]}
 
 
@@ -275,7 +294,11 @@ def sec_units(rec, patches=None):
     P = [[real(f"p{i}{a}") for a in range(3)] for i in range(2)]
     hyps = [s_.e > 0 for s_ in scales]
     qa, qb = rotation.R30[9], rotation.R30[10]
-    for entry in ("align", "align-scalar", "align-list", "multi", "no-template", "group", "group-multi", "group-no-template"):
+    for entry in ("align", "align-scalar", "align-list", "multi", "multi-scalar", "no-template", "no-template-scalar", "group", "group-scalar", "group-multi", "group-multi-scalar", "group-no-template",
+                  "group-no-template-scalar"):
+        scalar = entry.endswith("-scalar")
+        base = entry[: -len("-scalar")] if scalar and entry != "align-scalar" else entry
+        marg = m[0] if scalar else tuple(m)
         caps = []
         hetero = entry == "align-list"
 
@@ -317,29 +340,31 @@ def sec_units(rec, patches=None):
                 lds.append(ld)
             ld = lds[0]
             fac = lambda *a, **k: model  # noqa: E731
-            if entry == "align":
+            if base == "align":
                 ld.align("T", max_shifts=tuple(m), alignment_model=fac)
-            elif entry == "align-scalar":
+            elif base == "align-scalar":
                 ld.align("T", max_shifts=m[0], alignment_model=fac)
-            elif entry == "align-list":
+            elif base == "align-list":
                 ld.align(["T", "T"], max_shifts=tuple(m), alignment_model=fac)
-            elif entry == "multi":
-                ld.align_multi_templates(["T", "T"], max_shifts=tuple(m), alignment_model=fac)
-            elif entry == "no-template":
-                ld.align_no_template(max_shifts=tuple(m), alignment_model=fac)
+            elif base == "multi":
+                ld.align_multi_templates(["T", "T"], max_shifts=marg, alignment_model=fac)
+            elif base == "no-template":
+                ld.align_no_template(max_shifts=marg, alignment_model=fac)
             else:
                 G.compute = lambda all_tasks: [[] for _ in all_tasks]
                 grp = G.LoaderGroup([(f"k{k}", l_) for k, l_ in enumerate(lds)])
-                if entry == "group":
-                    grp.align("T", max_shifts=tuple(m), alignment_model=fac)
-                elif entry == "group-multi":
-                    grp.align_multi_templates({f"k{k}": ["T", "T"] for k in range(nld)}, max_shifts=tuple(m), alignment_model=fac)
+                if base == "group":
+                    grp.align("T", max_shifts=marg, alignment_model=fac)
+                elif base == "group-multi":
+                    grp.align_multi_templates({f"k{k}": ["T", "T"] for k in range(nld)}, max_shifts=marg, alignment_model=fac)
                 else:
                     grp.average = lambda *a, **k: {f"k{k}": "AVG" for k in range(nld)}
-                    grp.align_no_template(max_shifts=tuple(m), alignment_model=fac)
+                    grp.align_no_template(max_shifts=marg, alignment_model=fac)
             return list(caps)
 
-        for pi, p in enumerate(explore(run, assumptions=hyps)):
+        with L.installed():  # call-time imports inside the loaders must resolve to the loaded modules
+            paths_ = explore(run, assumptions=hyps)
+        for pi, p in enumerate(paths_):
             if not p.ok:
                 ok, det = replay_units({})
                 rec.fact(f"units[{entry}]/runs", False, key="C01/units/raises", detail={"exc": repr(p.exc)[:300], **det}, reproduced=ok)
@@ -353,12 +378,13 @@ def sec_units(rec, patches=None):
             for k, func, kw in got:
                 sc = scales[k]
                 ms = kw.get("max_shifts")
-                okf = getattr(func, "__func__", None) is Model.align and kw.get("output_shape") == (5, 5, 5) and ms is not None and len(ms) == 3
-                rec.fact(f"units[{entry}]/loader{k}/model.align-mapped-with-input-shape", bool(okf), key="C01/units/plumbing", detail={"kw": repr(kw)[:200]})
+                okf = getattr(func, "__func__", None) is Model.align and kw.get("output_shape") == (5, 5, 5) and ms is not None and np.ndim(ms) == 1 and len(ms) == 3
+                rec.fact(f"units[{entry}]/loader{k}/model.align-mapped-with-input-shape,max_shifts-is-a-3-sequence", bool(okf), key="C01/units/max_shifts-3-tuple" if (ms is None or np.ndim(ms) != 1) else "C01/units/plumbing",
+                         detail={"kw": repr(kw)[:200]}, reproduced=True if okf else replay_units({})[0])
                 if not okf:
                     continue
                 for a in range(3):
-                    want = (m[0] if entry == "align-scalar" else m[a]).e / sc.e
+                    want = (m[0] if scalar else m[a]).e / sc.e
                     rec.query(f"units[{entry}]/loader{k}/max_shifts{a}-in-pixels-of-this-loader", h, zr(ms[a]) == want, key="C01/units/max_shifts", names={"scale", "scale2"} | {f"m{b}" for b in range(3)}, replay=replay_units,
                               nonlinear=True)
                 vk = kw.get("var_kwarg") or {}
@@ -385,7 +411,18 @@ _MC = "acryo.molecules.core"
 _LB = "acryo.loader._base"
 _R = rotation.R30
 _PQ = {"quats": [(_R[9], _R[10])], "entry": "single"}
+_LB, _LG = "acryo.loader._base", "acryo.loader._group"
 MUTANTS = [
+    ("units:multi-templates-scalar-not-normalised (defect fixed by 'fix: scalar max_shifts...')", "checks.c01", "sec_units", {},
+     {_LB: [("        _max_shifts_px = tuple(\n            np.asarray(_normalize_max_shifts(max_shifts)) / self.scale\n        )\n\n        if isinstance(templates, ImageProvider):",
+             "        _max_shifts_px = np.asarray(max_shifts) / self.scale\n\n        if isinstance(templates, ImageProvider):")]}),
+    ("units:align-list-converts-twice (seeded change C01_3 / C05_4)", "checks.c01", "sec_units", {},
+     {_LB: [("                list(model.template),\n                mask=mask,\n                max_shifts=max_shifts,", "                list(model.template),\n                mask=mask,\n                max_shifts=tuple(np.asarray(max_shifts) / self.scale),")]}),
+    ("units:group-uses-first-loader-scale (seeded change C05_3)", "checks.c01", "sec_units", {},
+     {_LG: [("        for key, loader in self:\n            model = alignment_model(\n                loader.normalize_template(template_map[key]),\n                loader.normalize_mask(mask),\n                **align_kwargs,\n            )\n            _max_shifts_px = tuple(\n                np.asarray(_normalize_max_shifts(max_shifts)) / loader.scale\n            )",
+             "        _first = next(iter(self))[1]\n        for key, loader in self:\n            model = alignment_model(\n                loader.normalize_template(template_map[key]),\n                loader.normalize_mask(mask),\n                **align_kwargs,\n            )\n            _max_shifts_px = tuple(\n                np.asarray(_normalize_max_shifts(max_shifts)) / _first.scale\n            )")]}),
+    ("units:positions-not-converted", "checks.c01", "sec_units", {}, {_LB: [("                pos=self.molecules.pos / self.scale,\n            ),\n        )\n        all_results = tasks.compute()\n        return self._post_align(all_results, model.input_shape)",
+                                                                           "                pos=self.molecules.pos,\n            ),\n        )\n        all_results = tasks.compute()\n        return self._post_align(all_results, model.input_shape)")]}),
     ("pose:revert-fix-rotated-shift", "checks.c01", "sec_pose", _PQ, {_MC: [("            return self.translate_internal(shift).rotate_by_rotvec_internal(rotvec)", "            return self.translate_internal(rotator.apply(shift)).rotate_by_rotvec_internal(rotvec)")]}),
     ("pose:world-translation", "checks.c01", "sec_pose", _PQ, {_MC: [("            return self.translate_internal(shift).rotate_by_rotvec_internal(rotvec)", "            return self.translate(shift).rotate_by_rotvec_internal(rotvec)")]}),
     ("pose:world-rotation", "checks.c01", "sec_pose", _PQ, {_MC: [("            return self.translate_internal(shift).rotate_by_rotvec_internal(rotvec)", "            return self.translate_internal(shift).rotate_by_rotvec(rotvec)")]}),
